@@ -15,7 +15,7 @@ var c17Flags = []string{"", "i", "m", "s", "im"}
 
 var c17SubjectUnits = []string{"a", "b", "A", "/", "\n"}
 
-var c17TemplateUnits = []string{"x", "$0", "$1", "$2", "$12", "$$", "$", "$a", "$3"}
+var c17TemplateUnits = []string{"x", "$0", "$1", "$2", "$12", "$$", "$", "$a", "$3", "$10", "$11"}
 
 // refExpand is the template rule of the statement: $0 the match, $N the N-th
 // group taking the longest group number that exists (absent groups empty), $$ a
@@ -126,7 +126,9 @@ func init() {
 		return func(c *explore.Chooser, x *explore.Ctx, n int) {
 			var pat string
 			if templates {
-				pat = []string{"a", "(a)", "(a)(b)?", "(a(b))", "(a)|(b)", "()", "(a)(b)(A)", ".(.)?"}[c.Choose(8)]
+				// the last two have 12 and 10 groups: two-digit references to groups that exist but are absent or empty
+				pat = []string{"a", "(a)", "(a)(b)?", "(a(b))", "(a)|(b)", "()", "(a)(b)(A)", ".(.)?",
+					"(a)(b)?()()()()()()()(A)?()(b)?", "(a)()()()()()()()()()"}[c.Choose(10)]
 			} else {
 				pat = c17Pattern(c, n)
 			}
